@@ -7,6 +7,7 @@
   K2  derivation constants evaluated from the source: D_TOPSEED = 0xfefe, child seed index 0xfffe, randomizer index 0xfffd, ILEN = 16
   K3  child derivation: child seed = first output of the derivation keyed with (parent seed, parent I, parent leaf, index 0xfffe,
       incrementing), child I = the first ILEN bytes of the next output of the same derivation object
+      and inside the derivation routine the index field is encoded into the block before it is advanced (post-increment, as hash-sigs)
   K4  private key blob: the serialiser appends u64-BE counter || 8 parameter bytes || seed and the parser reads the same three
       widths in the same order and decodes the counter big-endian
   K5  parameter byte: (LMS type << 4) + LM-OTS type when encoding, >> 4 and & 0x0f when decoding; unused bytes are 0xff and 0xff
